@@ -308,6 +308,85 @@ pub fn native(cfg: &RunCfg, extra: &mut Extra) {
     }
     run!(f64, "f64");
     run!(f32, "f32");
+    // ---- native accuracy: the corner mapping on the real scalar types.  The
+    // tolerances (1e-4 for f32, 1e-11 for f64) are two or more orders of
+    // magnitude above the rounding error of the formulas on these parameter
+    // ranges, so only a numerically unsound formula (or a wrong one) can fire.
+    let mut worst = [0f64; 2];
+    macro_rules! accuracy {
+        ($T:ty, $tag:expr, $tol:expr, $slot:expr) => {{
+            'acc: for i in 0..n {
+                let mut rng = Rng::for_case(cfg.seed, concat!("c10_accuracy_", $tag), i);
+                let t = |x: f64| x as $T;
+                let fovy = t(rng.uniform(0.05, std::f64::consts::PI - 0.01));
+                let aspect = t(rng.uniform(0.25, 4.0));
+                let near = t(rng.uniform(0.05, 10.0));
+                let far = near * t(rng.uniform(1.5, 100.0));
+                let r = catch(|| {
+                    let mut err = 0f64;
+                    let m = perspective(Rad(fovy), aspect, near, far);
+                    let top = near * (fovy / t(2.0)).tan();
+                    let right = top * aspect;
+                    for (sx, sy) in [(1.0, 1.0), (-1.0, 1.0), (1.0, -1.0), (-1.0, -1.0)] {
+                        let p = m.transform_point(cgmath::Point3::new(right * t(sx), top * t(sy), -near));
+                        err = err.max((p.x as f64 - sx).abs()).max((p.y as f64 - sy).abs()).max((p.z as f64 + 1.0).abs());
+                        let k = far / near;
+                        let p = m.transform_point(cgmath::Point3::new(right * t(sx) * k, top * t(sy) * k, -far));
+                        err = err.max((p.x as f64 - sx).abs()).max((p.y as f64 - sy).abs()).max((p.z as f64 - 1.0).abs());
+                    }
+                    let (l, rr, b, tp) = (t(rng.uniform(-9.0, -0.1)), t(rng.uniform(0.1, 9.0)), t(rng.uniform(-9.0, -0.1)), t(rng.uniform(0.1, 9.0)));
+                    for (name, m) in [("frustum", frustum(l, rr, b, tp, near, far)), ("ortho", ortho(l, rr, b, tp, near, far))] {
+                        for (sx, x) in [(-1.0, l), (1.0, rr)] {
+                            for (sy, y) in [(-1.0, b), (1.0, tp)] {
+                                let p = m.transform_point(cgmath::Point3::new(x, y, -near));
+                                err = err.max((p.x as f64 - sx).abs()).max((p.y as f64 - sy).abs()).max((p.z as f64 + 1.0).abs());
+                                let k = if name == "frustum" { far / near } else { t(1.0) };
+                                let p = m.transform_point(cgmath::Point3::new(x * k, y * k, -far));
+                                err = err.max((p.x as f64 - sx).abs()).max((p.y as f64 - sy).abs()).max((p.z as f64 - 1.0).abs());
+                            }
+                        }
+                    }
+                    let h = t(rng.uniform(0.5, 20.0));
+                    let fv = t(rng.uniform(0.05, 2.9));
+                    let mp = planar(Rad(fv), aspect, h, near, far);
+                    for (sx, sy) in [(1.0, 1.0), (-1.0, -1.0)] {
+                        let p = mp.transform_point(cgmath::Point3::new(aspect * h / t(2.0) * t(sx), h / t(2.0) * t(sy), t(0.0)));
+                        err = err.max((p.x as f64 - sx).abs()).max((p.y as f64 - sy).abs());
+                    }
+                    let p = mp.transform_point(cgmath::Point3::new(t(0.3), t(-0.2), -near));
+                    err = err.max((p.z as f64 + 1.0).abs());
+                    let p = mp.transform_point(cgmath::Point3::new(t(-0.1), t(0.4), -far));
+                    err = err.max((p.z as f64 - 1.0).abs());
+                    err
+                });
+                evals += 1;
+                match r {
+                    Err(p) => {
+                        extra.violations.push((format!("native_accuracy_{}", $tag), format!("unexpected panic on valid parameters: {p}"), json!({"index": i})));
+                        break 'acc;
+                    }
+                    Ok(err) => {
+                        worst[$slot] = worst[$slot].max(err);
+                        if !(err <= $tol) {
+                            extra.violations.push((
+                                format!("native_accuracy_{}", $tag),
+                                format!("view-volume corner maps {err:e} away from the clip-cube corner (tolerance {:e}) for fovy={fovy} aspect={aspect} near={near} far={far}", $tol),
+                                json!({"fovy": fovy as f64, "aspect": aspect as f64, "near": near as f64, "far": far as f64, "index": i}),
+                            ));
+                            break 'acc;
+                        }
+                    }
+                }
+            }
+        }};
+    }
+    accuracy!(f32, "f32", 1e-4, 0);
+    accuracy!(f64, "f64", 1e-11, 1);
+    extra.sections.insert(
+        "native_corner_accuracy".into(),
+        json!({"cases_per_type": n, "worst_error_f32": worst[0], "tolerance_f32": 1e-4, "worst_error_f64": worst[1], "tolerance_f64": 1e-11,
+               "parameters": "fovy in [0.05, pi-0.01], aspect in [0.25,4], near in [0.05,10], far/near in [1.5,100]"}),
+    );
     extra.evaluations += evals;
     extra.distinct_nontrivial += distinct.len() as u64;
     extra.sections.insert(
